@@ -127,6 +127,22 @@ theorem load_perm_invariant_table (s : Loaded) {rows₁ rows₂ : List Line} (co
     tableLoad s rows₁ cols usecols = tableLoad s rows₂ cols usecols :=
   tableLoad_perm s cols usecols i hp hid hd
 
+/-- the id is NOT the leading column (`type id w`, as LAMMPS `dump custom type id …` writes) … -/
+def exTableIdSecond (text : String) : Option (List (String × List (List Rat))) :=
+  (loadTable text.toList ⟨⟨⟨1, 0, 0⟩, ⟨0, 1, 0⟩, ⟨0, 0, 1⟩⟩, ⟨0, 0, 0⟩⟩
+    [⟨"atype", ["type"], [], .none⟩, ⟨"a_id", ["id"], [], .none⟩, ⟨"w", ["w"], [], .none⟩] false).toOption.map
+      fun s => s.props.map fun p => (p.name, p.vals)
+
+/-- … the rows come back in id order whatever the order of the lines (non-vacuity of `load_perm_invariant_table` for
+    `idIndex cols = some 1`). -/
+example : exTableIdSecond "2 3 7.5\n1 1 2.5\n2 2 3.5\n" = exTableIdSecond "1 1 2.5\n2 2 3.5\n2 3 7.5\n" ∧
+    exTableIdSecond "2 2 3.5\n2 3 7.5\n1 1 2.5\n" = exTableIdSecond "1 1 2.5\n2 2 3.5\n2 3 7.5\n" ∧
+    idIndex [⟨"atype", ["type"], [], .none⟩, ⟨"a_id", ["id"], [], .none⟩, ⟨"w", ["w"], [], .none⟩] = some 1 := by
+  decide +kernel
+example : exTableIdSecond "2 3 7.5\n1 1 2.5\n2 2 3.5\n" =
+    some [("atype", [[1], [2], [2]]), ("pos", [[0, 0, 0], [0, 0, 0], [0, 0, 0]]), ("w", [[5 / 2], [7 / 2], [15 / 2]])] := by
+  decide +kernel
+
 /-- **load_perm_invariant**: the `Atoms` section of a data file — the property table *and* the image-flag shifts,
     both ordered by atom id — loads to the same system for every order of its atom lines, when the ids are
     distinct.  (`load_perm_invariant_table` is the same for dump files, tables and the `Velocities` section.) -/
